@@ -181,6 +181,22 @@ def sibling_tags(rng, ident):
     return scn.line("scn", ident, s, extra="nt=1 family=sibling-tags session=%s calltags=%s expect=%s" % (T(tm(sess)), ct, ",".join(exp)))
 
 
+def reply_races_context_end(rng, ident):
+    """the caller is held between handing over its frame and waiting for the reply; meanwhile its context ends AND its
+    reply arrives, so both are ready when it gets there: it may report either, but if it reports success the result must
+    be the one the peer sent"""
+    k = 1 + rng.below(3)
+    how = rng.choice(["cancel", "cancel", "deadline"])
+    s = ["park/ClientCall/%d" % k]
+    for i in range(1, k):
+        s += [scn.call(i), "replyto/%d" % i, "await/c%d" % i]
+    s += [scn.call(k, pad=rng.below(30), timeout=(25 if how == "deadline" else 0), nowait=True), "waitpark/ClientCall"]
+    s += [scn.cancel(k, nowait=True)] if how == "cancel" else ["sleep/40"]
+    s += ["replyto/%d" % k, "settle", "release/ClientCall", "await/c%d" % k, "settle"]
+    exp = ["%d:ok" % i for i in range(1, k)] + ["%d:ok+ctx" % k]
+    return scn.line("scn", ident, s, extra="nt=1 family=reply-races-context-end expect=%s" % ",".join(exp))
+
+
 def explore(ctx):
     rng, tier = ctx["rng"], ctx["tier"]
     if ctx.get("replay"):
@@ -208,6 +224,8 @@ def explore(ctx):
             lines.append(late_registration(rng, "g%d" % n)); n += 1
         for _ in range({"quick": 12, "thorough": 150, "search": 30}[tier]):
             lines.append(sibling_tags(rng, "t%d" % n)); n += 1
+        for _ in range({"quick": 16, "thorough": 200, "search": 40}[tier]):
+            lines.append(reply_races_context_end(rng, "x%d" % n)); n += 1
         for _ in range(2):
             lines.append(oversize_reply(rng, "o%d" % n)); n += 1
         for _ in range(6):
